@@ -37,7 +37,7 @@ def yields_component(fl, f, R, oid, site, multi_ok=True):
     if not ys:
         raise AnalysisError('no yield in %s' % site)
     why = []
-    single = len(ys) == 1 and not ys[0].loops
+    single = len(ys) == 1 and not ys[0].loops and not [g for g in ys[0].guards if not g.early]
     for y in ys:
         at = atom_of(fl, y.value)
         if at is None or at.head != 'tuple' or len(at.args) != 2:
@@ -50,12 +50,13 @@ def yields_component(fl, f, R, oid, site, multi_ok=True):
                 break
             if e.kind == 'store' and fmt(fl, e.target) == 'self.sigma_xsec':
                 last = e
-        ok = last is not None and fl.tab.equal(last.value, X) and last.loops == y.loops
+        ok = last is not None and fl.tab.equal(last.value, X) and last.loops == y.loops and \
+            [(g.node, g.positive) for g in last.guards] == [(g.node, g.positive) for g in y.guards]
         if not ok and not single:
             why.append('component %s yielded without self.sigma_xsec = <that array>' %
                        unparse(y.value_ast))
-        if not ok and single:
-            pass
+        if not ok and len(ys) == 1 and not single:
+            why.append('the only component is yielded conditionally (%s)' % [g.text() for g in y.guards if not g.early])
     R.check(oid, 'DOM', site,
             'each yielded component is what contribute() will use (self.sigma_xsec assigned '
             'to it before the yield, or a single unconditional yield)',
@@ -205,7 +206,8 @@ def _run(ix, R):
             if not fresh:
                 why.append('total is not a fresh zero array')
             st = [e for e in fl.of('store') if fmt(fl, e.target) == 'self.sigma_xsec' and not e.loops]
-            if len(st) != 1 or not isinstance(st[0].node.value, ast.Name) or st[0].node.value.id != au.name:
+            if len(st) != 1 or not isinstance(st[0].node.value, ast.Name) or st[0].node.value.id != au.name or \
+                    st[0].guards or fl.events.index(st[0]) < fl.events.index(au):
                 why.append('total is not stored to self.sigma_xsec after the loop')
             pe = one([e for e in calls(fl, 'prepare_each')], 'prepare_each call')
             ps = f.params()
@@ -214,6 +216,9 @@ def _run(ix, R):
                 why.append('prepare_each called with %s' % [fmt(fl, a) for a in pe.args])
             R.check('3.sum', 'ACC', site, stmt, not why, key='; '.join(why), detail='; '.join(why),
                     loc=f.loc(au.node))
+    # the kernel callers forward their arguments unchanged (same obligations as C01.2)
+    from rules.C01 import caller_obligations
+    caller_obligations(ix, R, '1.call')
     # ---- 3. alias escape of yielded buffers
     alias_escape(ix, R)
     # ---- 4. each prepare_each exposes the component it yields
@@ -232,6 +237,7 @@ def _run(ix, R):
     # ---- 5. swap / restore
     for nm in ('model_contrib', 'model_full_contrib'):
         swap_restore(ix, R, SM + '::SimpleForwardModel.' + nm)
+        contrib_pipeline(ix, R, SM + '::SimpleForwardModel.' + nm, nm == 'model_full_contrib')
     # ---- 6. unique names
     unique_names(ix, R, base)
 
@@ -269,6 +275,11 @@ def absorption_weighting(ix, R):
             why.append('component buffer %s is not zeroed for each gas' % fmt(fl, tg.args[0]))
         if ll.kind != 'enumerate':
             why.append('layer loop %s' % unparse(ll.iter_ast))
+        if st.guards:
+            why.append('layer accumulation is conditional on %s' % [g.text() for g in st.guards])
+        ys = [y for y in fl.of('yield') if y.loops == (gl,)]
+        if len(ys) != 1 or ys[0].guards or fl.events.index(ys[0]) < fl.events.index(st):
+            why.append('not exactly one unconditional yield per gas after its layers are filled')
         R.check('2.abs', 'ALG', site, stmt, not why, key='; '.join(why), detail='; '.join(why),
                 loc=f.loc(st.node), extracted=fmt(fl, st.value))
 
@@ -306,6 +317,11 @@ def cia_weighting(ix, R):
             why.append('target %s' % fmt(fl, st.target))
         elif not zero_leaves(fl, tg.args[0], pl):
             why.append('component buffer %s is not zeroed for each pair' % fmt(fl, tg.args[0]))
+        if st.guards:
+            why.append('layer accumulation is conditional on %s' % [g.text() for g in st.guards])
+        ys = [y for y in fl.of('yield') if y.loops == (pl,)]
+        if len(ys) != 1 or ys[0].guards or fl.events.index(ys[0]) < fl.events.index(st):
+            why.append('not exactly one unconditional yield per pair after its layers are filled')
         R.check('2.cia', 'ALG', site, stmt, not why, key='; '.join(why), detail='; '.join(why),
                 loc=f.loc(st.node), extracted=fmt(fl, st.value))
 
@@ -408,6 +424,11 @@ def hm_weighting(ix, R):
             why.append('row = %s; expected %s' % (fmt(fl, st.value), fmt(fl, want)))
         if not fl.tab.equal(st.target, spec(fl, 'self.sigma_xsec[i]', b)) or st.op is not None:
             why.append('row target %s' % unparse(st.node))
+        lic = [spec(fl, "'%s' not in model.chemistry.activeGases + model.chemistry.inactiveGases" % x, b) for x in ('H', 'e-')]
+        extra = [g for g in st.guards if not (g.early and not g.positive and g.rf is not None and
+                                              any(fl.tab.equal(g.rf, x) for x in lic))]
+        if extra:
+            why.append('row store is conditional on %s' % [g.text() for g in extra])
         if not loop_matches(fl, st.loops[0], '0', 'self._nlayers'):
             why.append('row loop %s' % unparse(st.loops[0].iter_ast))
         R.check('2.hm', 'ALG', site, stmt, not why, key='; '.join(why), detail='; '.join(why),
@@ -521,6 +542,100 @@ def swap_restore(ix, R, site):
                 loc=f.loc(pi.node))
 
 
+def contrib_pipeline(ix, R, site, each):
+    """model_contrib / model_full_contrib evaluate every contribution alone through the same pipeline as model():
+    profiles and star first, then per contribution: swap, prepare (or step prepare_each), path_integral on the
+    same grid, result stored under the contribution's name."""
+    stmt = ('initialize_profiles() and star.initialize(grid) once; then for every contribution, alone in contribution_list: '
+            + ('for every component stepped out of prepare_each(self, grid): ' if each else 'prepare(self, grid), ')
+            + 'path_integral(grid) unconditionally, its result kept under the contribution'
+            + ('/component name' if each else ' name') + '; (grid, results) returned')
+    with R.guard('5.pipe', 'ARG', site, stmt):
+        f = ix.func(site)
+        fl = mkflow(ix, site)
+        why = []
+        evs = fl.events
+        pi = one(calls(fl, 'path_integral'), 'path_integral call')
+        G = pi.args[0]
+        sw = one([e for e in fl.of('store') if fmt(fl, e.target) == 'self.contribution_list' and e.loops], 'swap')
+        outer = sw.loops[0]
+        cur = fl.tab.atom('elem', (outer.iter_rf[0], outer.index))
+        ip = calls(fl, 'initialize_profiles')
+        si = [e for e in calls(fl, 'initialize') if e.recv_rf is not None and fl.tab.equal(e.recv_rf, code(fl, 'self._star'))]
+        for lst, nm in ((ip, 'initialize_profiles()'), (si, 'star.initialize()')):
+            if len(lst) != 1 or lst[0].guards or lst[0].loops or evs.index(lst[0]) > evs.index(sw):
+                why.append('%s is not called exactly once, unconditionally, before the loop' % nm)
+        if len(si) == 1 and not (si[0].args and fl.tab.equal(si[0].args[0], G)):
+            why.append('star.initialize(%s) is not on the grid of path_integral' % ', '.join(fmt(fl, a)[:40] for a in si[0].args))
+        if sw.guards or len(sw.loops) != 1:
+            why.append('swap is conditional or nested')
+        if pi.guards:
+            why.append('path_integral is conditional on %s' % [g.text() for g in pi.guards])
+        if len(pi.args) < 2 or pi.args[1].const() not in (0, False):
+            pass
+        if not each:
+            pr = [e for e in calls(fl, 'prepare')]
+            if len(pr) != 1 or pr[0].guards or pr[0].loops != (outer,) or pr[0].recv_rf is None or \
+                    not fl.tab.equal(pr[0].recv_rf, cur) or len(pr[0].args) != 2 or \
+                    not fl.tab.equal(pr[0].args[0], fl.tab.name('self')) or not fl.tab.equal(pr[0].args[1], G) or \
+                    not (evs.index(sw) < evs.index(pr[0]) < evs.index(pi)):
+                why.append('prepare(self, grid) of the swapped-in contribution does not run once, unconditionally, '
+                           'between the swap and path_integral')
+            if pi.loops != (outer,):
+                why.append('path_integral is not called once per contribution')
+            picall = fl.tab.atom('call', tuple(pi.args), extra=('fn:self.path_integral',))
+            want = fl.tab.atom('tuple', (fl.tab.atom('idx', (picall, fl.tab.const(0))),
+                                         fl.tab.atom('idx', (picall, fl.tab.const(1))), code(fl, 'None')))
+            keyst = [e for e in fl.of('store') if e.loops == (outer,) and atom_of(fl, e.target) is not None and
+                     atom_of(fl, e.target).head == 'idx' and fmt(fl, e.target) != 'self.contribution_list']
+            if len(keyst) != 1 or keyst[0].guards or evs.index(keyst[0]) < evs.index(pi) or \
+                    not fl.tab.equal(atom_of(fl, keyst[0].target).args[1], fl.tab.atom('getattr', (cur, 'name'))) or \
+                    not fl.tab.equal(keyst[0].value, want):
+                why.append('result is not stored as D[contrib.name] = (path_integral[0], path_integral[1], None)')
+            res = atom_of(fl, keyst[0].target).args[0] if len(keyst) == 1 else None
+        else:
+            pe = [e for e in calls(fl, 'prepare_each')]
+            if len(pe) != 1 or pe[0].guards or pe[0].loops != (outer,) or pe[0].recv_rf is None or \
+                    not fl.tab.equal(pe[0].recv_rf, cur) or len(pe[0].args) != 2 or \
+                    not fl.tab.equal(pe[0].args[1], G) or evs.index(pe[0]) < evs.index(sw):
+                why.append('prepare_each(self, grid) of the swapped-in contribution is not stepped after the swap')
+            if len(pi.loops) != 2 or pi.loops[0] is not outer or len(pe) != 1 or \
+                    'prepare_each' not in fmt(fl, pi.loops[1].iter_rf[0]):
+                why.append('path_integral is not called once per yielded component')
+            else:
+                inner = pi.loops[1]
+                comp = fl.tab.atom('elem', (inner.iter_rf[0], inner.index))
+                picall = fl.tab.atom('call', tuple(pi.args), extra=('fn:self.path_integral',))
+                ap = [e for e in calls(fl, 'append') if e.loops == pi.loops]
+                okap = len(ap) == 1 and not ap[0].guards and evs.index(ap[0]) > evs.index(pi)
+                if okap:
+                    at = atom_of(fl, ap[0].args[0])
+                    okap = at is not None and at.head == 'tuple' and len(at.args) == 4 and \
+                        fl.tab.equal(at.args[1], fl.tab.atom('idx', (picall, fl.tab.const(0)))) and \
+                        fl.tab.equal(at.args[2], fl.tab.atom('idx', (picall, fl.tab.const(1)))) and \
+                        fmt(fl, at.args[0]).startswith('elem(prepare_each(')
+                if not okap:
+                    why.append('component result is not appended as (name, path_integral[0], path_integral[1], None)')
+                keyst = [e for e in fl.of('store') if e.loops == (outer,) and atom_of(fl, e.target) is not None and
+                         atom_of(fl, e.target).head == 'idx' and fmt(fl, e.target) != 'self.contribution_list']
+                if len(keyst) != 1 or keyst[0].guards or evs.index(keyst[0]) < evs.index(pi) or \
+                        not fl.tab.equal(atom_of(fl, keyst[0].target).args[1], fl.tab.atom('getattr', (cur, 'name'))) or \
+                        not (ap and ap[0].recv_rf is not None and fl.tab.equal(keyst[0].value, ap[0].recv_rf)):
+                    why.append('component list is not stored as D[contrib.name] after the components')
+                lst = atom_of(fl, ap[0].recv_rf) if ap and ap[0].recv_rf is not None else None
+                if lst is None or lst.head != 'alloc':
+                    why.append('component list is not a fresh list per contribution')
+                else:
+                    al = [e for e in fl.of('assign') if fl.tab.equal(e.value, ap[0].recv_rf)]
+                    if not al or al[0].loops != (outer,) or al[0].guards:
+                        why.append('component list is not re-created for every contribution')
+        r = one(fl.of('return'), 'return')
+        ra = atom_of(fl, r.value)
+        if ra is None or ra.head != 'tuple' or len(ra.args) != 2 or not fl.tab.equal(ra.args[0], G) or r.guards:
+            why.append('returns %s' % fmt(fl, r.value)[:80])
+        R.check('5.pipe', 'ARG', site, stmt, not why, key='; '.join(why), detail='; '.join(why), loc=f.loc(pi.node))
+
+
 def unique_names(ix, R, base):
     names = {}
     for c in ix.subclasses(base, strict=True):
@@ -570,4 +685,22 @@ EQUIVALENTS = [
     ('abs-commute', AB, 'sigma_xsec[idx_layer] += xsec.opacity(temperature, pressure, wngrid) * gas_mix[idx_layer]', 'sigma_xsec[idx_layer] += gas_mix[idx_layer] * xsec.opacity(tp[0], tp[1], wngrid)'),
     ('cia-inline', CI, 'sigma_cia[idx_layer] += _cia_xsec * cia_factor[idx_layer]', 'sigma_cia[idx_layer] += cia_factor[idx_layer] * cia.cia(temperature, wngrid)'),
     ('ray-temp', CD + 'rayleigh.py', 'final_sigma = sigma[None, :] * model.chemistry.get_gas_mix_profile(gasname)[:, None]', 'mixr = model.chemistry.get_gas_mix_profile(gasname)\n                final_sigma = mixr[:, None] * sigma[None, :]'),
+]
+# statements that implement an unconditional part of the documented behaviour: wrapped in an `if`
+# (so that they may be skipped) each must be reported - generated and checked by the thorough tier
+UNCONDITIONAL = [
+    ('taurex/contributions/absorption.py', 'sigma_xsec[idx_layer] += xsec.opacity('),
+    ('taurex/contributions/absorption.py', 'yield (gas, sigma_xsec)'),
+    ('taurex/contributions/absorption.py', 'self.sigma_xsec = sigma_xsec', 0),
+    ('taurex/contributions/absorption.py', 'self.sigma_xsec = sigma_xsec', 1),
+    ('taurex/contributions/cia.py', 'sigma_cia[idx_layer] += _cia_xsec'),
+    ('taurex/contributions/cia.py', 'yield (pairName, sigma_cia)'),
+    ('taurex/contributions/cia.py', 'self.sigma_xsec = sigma_cia'),
+    ('taurex/contributions/hm.py', 'self.sigma_xsec[i, :] = xsec_ff[:] + xsec_bf[:]'),
+    ('taurex/contributions/hm.py', "yield ('HydrogenIon', self.sigma_xsec)"),
+    ('taurex/contributions/contribution.py', 'sigma_xsec += sigma'),
+    ('taurex/model/simplemodel.py', 'contrib.prepare(self, native_grid)', 1),
+    ('taurex/model/simplemodel.py', 'all_contrib_dict[contrib.name] = (absorp, tau, None)'),
+    ('taurex/model/simplemodel.py', 'contrib_res_list.append((name, absorp, tau, None))'),
+    ('taurex/model/simplemodel.py', 'result_dict[contrib_name] = contrib_res_list'),
 ]
